@@ -33,6 +33,10 @@ func c14Jobs(tier string, seed int64) []string {
 	jobs = append(jobs, "listeq:II", "listeq:IF", "listeq:FI", "mapeq:Mm", "mapeq:mM", "nested:N")
 	// numeric value comparison of Int with Float
 	jobs = append(jobs, "numeq:IF", "numlt:IF", "numlt:FI")
+	// same-kind comparison by value: IEEE equality and order on floats (+0 = -0, NaN unequal to
+	// everything), integer equality and order, byte-wise string equality and order, bool equality;
+	// also as list elements and map values
+	jobs = append(jobs, "byvalue:F", "byvalue:I", "byvalue:S", "byvalue:B")
 	// transitivity on all eight Int/Float patterns and on strings
 	for _, a := range []byte{'I', 'F'} {
 		for _, b := range []byte{'I', 'F'} {
@@ -217,6 +221,39 @@ func c14Run(job string) {
 		sym.Assert(r3.ok(), "list-of-map-eq-defined")
 		if x, ok := boolOf(r3); ok {
 			sym.Assert(sym.Iff(x, a0.(value.Int) == b0.(value.Int)), "list-of-map-eq")
+		}
+	case "byvalue":
+		a, b := mk(fg, kinds[0], "a"), mk(fg, kinds[0], "b")
+		var wantEq, wantLt bool
+		hasLt := true
+		switch kinds[0] {
+		case 'F':
+			fa, fb := float64(a.(value.Float)), float64(b.(value.Float))
+			wantEq, wantLt = fa == fb, fa < fb
+		case 'I':
+			wantEq, wantLt = a.(value.Int) == b.(value.Int), a.(value.Int) < b.(value.Int)
+		case 'S':
+			wantEq, wantLt = a.(value.String) == b.(value.String), a.(value.String) < b.(value.String)
+		case 'B':
+			wantEq, hasLt = sym.Iff(bool(a.(value.Bool)), bool(b.(value.Bool))), false
+		}
+		for _, form := range []string{"a=b", "[a]=[b]", "[1,a]=[1,b]", "{k:a}={k:b}", "!(a!=b)", "a ~ [b]", "switch a case b: true default false"} {
+			r := eval(mustGen(fg, form, "a", "b"), a, b)
+			sym.Assert(r.ok(), "defined:"+form)
+			if x, ok := boolOf(r); ok {
+				sym.Assert(sym.Iff(x, wantEq), "equal-by-value:"+form)
+			}
+		}
+		if hasLt {
+			for _, form := range []string{"a<b", "b>a", "!(a>=b)"} {
+				r := eval(mustGen(fg, form, "a", "b"), a, b)
+				sym.Assert(r.ok(), "defined:"+form)
+				if x, ok := boolOf(r); ok && kinds[0] != 'F' {
+					sym.Assert(sym.Iff(x, wantLt), "less-by-value:"+form)
+				} else if ok && form != "!(a>=b)" {
+					sym.Assert(sym.Iff(x, wantLt), "less-by-value:"+form) // with NaN a>=b is false as well
+				}
+			}
 		}
 	case "numeq":
 		// Int = Float compares numeric values: equal iff the float is that integer
